@@ -464,7 +464,7 @@ func (i *interpreter) makeSliceSizes(fr *frame, tElt types.Type, lenV, capV valu
 				panic(targetPanic{iface{i.runtimeErrorString, "runtime error: makeslice: " + what + " out of range"}})
 			}
 			i.px.noteSymbolicAlloc(fr, s, es)
-			return i.concInt(v, "makeslice "+what)
+			return i.concAllocSize(s, "makeslice "+what)
 		}
 		n := asInt64(v)
 		if n < 0 || n > limit {
@@ -514,6 +514,48 @@ func (i *interpreter) tolerantInitCall(fr *frame, instr *ssa.Call, fn value, arg
 		}
 	}()
 	return i.call(fr, instr.Pos(), fn, args)
+}
+
+// concAllocSize concretises an allocation size. Sizes up to 64 are enumerated; when more values
+// remain, one representative larger size stands for all of them (stated cut: beyond the bytes a
+// reader can deliver, the size of a buffer only matters through "more than available").
+func (i *interpreter) concAllocSize(s sym, what string) int64 {
+	tc := i.px.tc
+	w := kindWidth(s.k)
+	small := tc.bvcmp(OBvUle, s.t, tc.BV(w, uint64(i.px.eng.cfg.AllocEnumerate)))
+	if kindSigned(s.k) {
+		small = tc.And(small, tc.bvcmp(OBvSle, tc.BV(w, 0), s.t))
+	}
+	if i.px.branch(small) {
+		return i.concInt(s, what)
+	}
+	i.px.res.Reached["engine:representative-allocation-size"] = true
+	var v uint64
+	if i.px.replaying() {
+		d := i.px.prefix[i.px.pos]
+		i.px.pos++
+		if d.K != 'r' {
+			i.px.abort(stEngineBug, "replay divergence: expected representative size, trace has %v", d)
+		}
+		v = uint64(d.V)
+	} else {
+		r, m := i.px.solver.CheckModel(tc, nil, []*Term{s.t})
+		if r != Sat {
+			i.px.abort(stInconclusive, "solver unknown while choosing a representative allocation size")
+		}
+		v = m[s.t.id].Uint64()
+		// prefer a modest representative when feasible
+		for _, cand := range []uint64{uint64(i.px.eng.cfg.AllocEnumerate) + 1, 4096} {
+			if i.px.solver.Check(tc, tc.Eq(s.t, tc.BV(w, cand))) == Sat {
+				v = cand
+				break
+			}
+		}
+	}
+	i.px.res.Decisions++
+	i.px.trace = append(i.px.trace, Decision{'r', int64(v)})
+	i.px.assume(tc.Eq(s.t, tc.BV(w, v)))
+	return int64(v)
 }
 
 func isEmptyTuple(t types.Type) bool {
